@@ -3,35 +3,54 @@ package main
 import "verifharness/tl"
 
 // C14: panics are contained, Status() is consistent and race free. Families: panics of different dynamic
-// types on every worker at the same instant while Status() is polled (recorded, and unrecorded so that the
-// recorder adds no synchronisation the race detector could take for ordering), exact PendingTask in every
-// stable state (workers pinned, k = 0..laneSize*(queueSize+1) tasks accepted), stress with panicking tasks and
-// several observers. The binary is built with -race; a report becomes a "VIOL race" line.
-func main() { tl.Main("C14", run) }
+// types one after the other on one lane (string, error, int, struct, slice, typed nil pointer, then a normal
+// task); panics on every worker at the same instant while Status() is polled (recorded, and unrecorded so that
+// the recorder adds no synchronisation the race detector could take for ordering); exact PendingTask in every
+// stable state (workers pinned, k = 0..laneSize*(queueSize+1) tasks accepted), also with producers blocked in
+// PushTask; the concurrency bound after panics; stress with panicking tasks and several observers. Built with
+// -race (a report becomes a "VIOL race" line); every family runs in a process of its own (a crash becomes a
+// "VIOL crash" line).
+func main() {
+	tl.Main("C14", []tl.Family{{Name: "panics", Run: panics}, {Name: "pending", Run: pending}, {Name: "stress", Run: stress}})
+}
 
-func run(en *tl.Engine) {
-	reps := 1
+func reps(en *tl.Engine, quick, thorough int) int {
 	if en.E.Thorough() {
-		reps = 6
+		return thorough
 	}
-	for rep := 0; rep < reps; rep++ {
+	return quick
+}
+
+func panics(en *tl.Engine) {
+	for rep := 0; rep < reps(en, 1, 6); rep++ {
 		for _, c := range tl.Configs() {
 			n, q := c[0], c[1]
+			en.PanicSequence(n, q)
 			en.PanicStorm(n, q, true, 2)
 			en.PanicStorm(n, q, false, 6)
+			en.BoundAfterPanics(n, q, 1)
+		}
+	}
+}
+
+func pending(en *tl.Engine) {
+	for rep := 0; rep < reps(en, 1, 6); rep++ {
+		for _, c := range tl.Configs() {
+			n, q := c[0], c[1]
 			full := n * (q + 1)
 			en.PendingExact(n, q, full, false)
 			en.PendingExact(n, q, q+1, true)
 			if full > 2 {
 				en.PendingExact(n, q, full/2, false)
 			}
+			en.PendingBlockedProducer(n, q)
 			en.CancelPoint(n, q, "Q1", "idle", false)
 		}
 	}
-	small, big := 300, 50
-	if en.E.Thorough() {
-		small, big = 3000, 600
-	}
+}
+
+func stress(en *tl.Engine) {
+	small, big := reps(en, 300, 3000), reps(en, 50, 600)
 	for i := 0; i < small; i++ {
 		n, q := 1+en.Rng.Intn(3), en.Rng.Intn(3)
 		en.Stress(n, q, tl.StressOpt{PanicPct: 40, Observers: 1, CancelMode: 0}, i)
